@@ -58,7 +58,15 @@ TRICKY_TEXT = ["a\u0085b", "\u0085", "a\u2028b", "a\u2029b", "\ufeffa", "a\tb", 
                "1.5", "+1", ".inf", ".nan", "true", "2020-01-01", "1:30", "<<", "=", "&a", "*a", "!t", "%p", "@a", "`b", "{a}",
                "[a]", "a,b", "? x", "| x", "> x", "-", "---", "...", "a  b", " ", "a\rb", "a\r\nb", "a\x7fb", "a\x1bb", "a\x00b",
                "\x80", "\x9f", "\U0001F600", "\ufffd", "\ud7ff\ue000", "a \nb", "a\n b", "\t", "a\t", "\ta",
-               ("w " * 60).strip(), "x" * 200, "\u00e9" * 90]
+               ("w " * 60).strip(), "x" * 200, "\u00e9" * 90,
+               # long free text as release notes have it: lines beyond any folding width that start with a blank or a
+               # tab, indented bullets, paragraphs, double and trailing blanks, indicators in the middle
+               "Release notes:\n - " + "fixed the thing " * 8 + "\n - " + "and another one " * 7,
+               " " + "leading blank then many words " * 5,
+               "word " * 20 + "\n  indented " + "more words " * 12 + "\nlast line",
+               "ab  cd " * 20, "trailing blanks " * 8 + "  ", "para one " * 12 + "\n\n" + "para two " * 12 + "\n",
+               "\tTabbed " + "line goes on " * 10, "key: value " * 12 + "# not a comment " * 5,
+               "x" * 79 + " " + "y" * 79, "a " * 39 + "b", "a " * 40 + "b", " \n " + "w " * 50]
 
 
 class World:
